@@ -592,7 +592,15 @@ impl<'s, 'e, 'v> Gen<'s, 'e, 'v> {
                         let up = self.e.upper_byte();
                         self.try_emit(&[Insn::MovImm { sz: Sz::L, imm: self.leaf | up, d: r }, Insn::Jsr(JTarget::Reg(r))])
                     }
-                    _ => self.try_emit(&[Insn::Jsr(JTarget::MemInd(0x40))]),
+                    _ => {
+                        if self.e.chance(1, 2) {
+                            self.try_emit(&[Insn::Jsr(JTarget::MemInd(0x40))])
+                        } else {
+                            // BSR d:8 to a routine that sits right behind a branch over it
+                            let body = self.two_byte_insn();
+                            self.try_emit(&[Insn::Bsr { disp: 2, wide: false }, Insn::Bcc { cond: 0, disp: 4, wide: false }, body, Insn::Rts])
+                        }
+                    }
                 }
             }
             4 => {
@@ -611,6 +619,14 @@ impl<'s, 'e, 'v> Gen<'s, 'e, 'v> {
                         let t = self.cursor() + 8;
                         let up = self.e.upper_byte();
                         self.try_emit(&[Insn::MovImm { sz: Sz::L, imm: t | up, d: r }, Insn::Jmp(JTarget::Reg(r))])
+                    }
+                    2 if self.e.chance(1, 2) => {
+                        // JMP @@aa:8 through a slot that holds the address of an RTS: the address to continue at is
+                        // pushed first, so the RTS behind the vector comes back here
+                        let r = self.e.below(4) as u8;
+                        let t = self.cursor() + 6 + 4 + 2;
+                        let up = self.e.upper_byte();
+                        self.try_emit(&[Insn::MovImm { sz: Sz::L, imm: t | up, d: r }, Insn::Store { sz: Sz::L, s: r, ea: Ea::Pre(7) }, Insn::Jmp(JTarget::MemInd(0x44))])
                     }
                     _ => {
                         // Bcc always / never with a wider displacement over nothing
@@ -738,6 +754,13 @@ pub fn build_irq(e: &mut Ent, fl: Flavor, with_irqs: bool) -> Soup {
             let top = (e.upper_byte() >> 24) as u8;
             patches.push((4 * v as u32, vec![top, (h >> 16) as u8, (h >> 8) as u8, h as u8]));
         }
+    }
+    // @@aa:8 slot for JMP: the address of a lone RTS
+    {
+        let rts_at = handler + 0x30;
+        patches.push((rts_at, encode(&Insn::Rts)));
+        let top = (e.upper_byte() >> 24) as u8;
+        patches.push((0x44, vec![top, (rts_at >> 16) as u8, (rts_at >> 8) as u8, rts_at as u8]));
     }
     // @@aa:8 slot for JSR
     let top = (e.upper_byte() >> 24) as u8;
